@@ -10,18 +10,19 @@ RULE = ('per case (operator/back-end, base, query batch, budget setting in {tota
         'reference rows (which must equal an un-budgeted run) and the number of observation points; then ONE RUN '
         'PER FAULT POINT: (D) every Deadline read from the k-th on says expired / 0 ms left, k = 1..N_D; '
         '(A) the k-th z3 Optimize.check() returns unknown without running, (B) after running, k = 1..N_Z '
-        '(all points when N <= 48, else a stratified sample); (H) in parallel evaluation the k-th worker never returns (sleeping worker, virtualised join time-out), k = 1..#queries; (P) a virtual clock makes the preprocessing of the operator use 0.6x / 1.0x / 2.5x of the total budget, so that the budget arithmetic yields a zero or negative per-query budget. Each faulted run is followed by an un-faulted call '
+        '(all points when N <= 48, else a stratified sample); (R) NO injection at all: a corpus base of 20-60 atoms is asked with REAL budgets that are fractions (1/16 ... 1) of the measured un-budgeted time of the same call, so that the real clock expires inside RC2 enumerations and inside z3 (the solver gives up by itself); whatever the timing, each row must be flagged-False or equal the reference, so the verdict does not depend on the speed of the machine (only the count of effective points does); (H) in parallel evaluation the k-th worker never returns (sleeping worker, virtualised join time-out), k = 1..#queries; (P) a virtual clock makes the preprocessing of the operator use 0.6x / 1.0x / 2.5x of the total budget, so that the budget arithmetic yields a zero or negative per-query budget. Each faulted run is followed by an un-faulted call '
         'on the same manager. Verdict per run: no exception escapes; every row is flagged (inference_timed_out '
         'or preprocessing_timed_out) with result False, or equals the reference. Decisions use logical indices '
         'only. Non-trivial = fault point that changed the outcome (some row flagged); distinct by '
         'hash(base, batch, configuration, budget, fault kind, k).')
-ASSUMPTIONS = ['a real expiry inside a native solver call is represented by check() returning unknown (variants A/B)',
+ASSUMPTIONS = ['a real expiry inside a native solver call is represented by check() returning unknown (variants A/B), and additionally produced for real by fault kind R (fractional real budgets on mid-size corpus bases)',
+               'kind R passes fractional budgets (floats, seconds); if a generous fractional budget alone raises, kind R detaches (counter real_budget_not_attached) instead of judging',
                'p-entailment and System Z never read the deadline: for them only the budget arithmetic is exercised']
 TRUSTED = ['interposition wrappers on Deadline and z3.Optimize.check (vf/instrument.py)']
 FLOOR = {'quick': 300, 'thorough': 3000}
 BUDGET = {'quick': 110, 'thorough': 1800}
 N = {'quick': 520, 'thorough': 7000}
-REQUIRED = {'quick': {'fault_runs_D': 300, 'fault_runs_A': 80, 'fault_runs_B': 80, 'fault_runs_H': 40, 'fault_runs_P': 30, 'parallel_fault_runs': 40},
+REQUIRED = {'quick': {'fault_runs_D': 300, 'fault_runs_A': 80, 'fault_runs_B': 80, 'fault_runs_H': 40, 'fault_runs_P': 30, 'fault_runs_R': 20, 'parallel_fault_runs': 40},
             'thorough': {'fault_runs_D': 3000, 'fault_runs_A': 1500, 'fault_runs_B': 1500, 'fault_runs_H': 600, 'parallel_fault_runs': 400}}
 RECYCLE = 40
 BUDGETS = [dict(total_timeout=1000), dict(preprocessing_timeout=1000), dict(inference_timeout=1000),
@@ -34,10 +35,17 @@ PLAN = [('system-w', 'rc2', 'D'), ('lex_inf', 'rc2', 'D'), ('c-inference', 'rc2'
         ('p-entailment', '', 'D'), ('system-z', '', 'D'),
         ('system-w', 'rc2', 'H'), ('lex_inf', 'z3', 'H'), ('c-inference', 'rc2', 'H'), ('system-z', '', 'H'),
         ('p-entailment', '', 'P'), ('system-z', '', 'P'), ('system-w', 'rc2', 'P'), ('lex_inf', 'z3', 'P')]
+# real-clock runs (no injection): appended to the plan with their own share
+PLAN_R = [('system-w', 'rc2'), ('lex_inf', 'z3'), ('system-w', 'z3'), ('lex_inf', 'rc2'), ('c-inference', 'rc2')]
+N_R = {'quick': 20, 'thorough': 300}
 
 
 def cases(tier, seed):
     out = []
+    for i in range(N_R[tier]):
+        s, p = PLAN_R[i % len(PLAN_R)]
+        out.append({'prop': ID, 'seed': seed, 'idx': 100000 + i, 'system': s, 'p': p, 'fault': 'R', 'budget': {},
+                    'multi': i % 6 == 5, 'big': True, 'hi': 40 if tier == 'quick' else 60})
     for i in range(N[tier]):
         s, p, kind = PLAN[i % len(PLAN)]
         out.append({'prop': ID, 'seed': seed, 'idx': i, 'system': s, 'p': p, 'fault': kind,
@@ -47,6 +55,8 @@ def cases(tier, seed):
 
 
 def run_case(case):
+    if case['fault'] == 'R':
+        return run_real(case)
     rng = gen.rng_for(case['seed'], ID, case['idx'])
     system, p, kind, budget, multi = case['system'], case['p'], case['fault'], case['budget'], case['multi']
     cname = impl.cfg_name(system, p)
@@ -265,4 +275,145 @@ def run_case(case):
         dl.uninstall()
     res['sample'] = {'base': bdesc, 'config': cname, 'mode': mode, 'budget': budget, 'parallel': multi,
                      'fault_kind': kind, 'observation_points': n, 'queries': texts, 'reference': [ref1, ref2]}
+    return res
+
+
+def run_real(case):
+    """kind R: real budgets, real clock, no interposition.  Sound whatever the timing: rows are flagged-False or
+    equal the un-budgeted reference; nothing escapes; a later un-budgeted call on the same manager is exact."""
+    import time
+    rng = gen.rng_for(case['seed'], ID, case['idx'])
+    system, p, multi = case['system'], case['p'], case['multi']
+    cname = impl.cfg_name(system, p)
+    res = {'evals': 0, 'nontrivial': [], 'violations': [], 'inconclusive': [], 'counters': {}}
+    cnt = res['counters']
+
+    def bump(k, sub=None, n=1):
+        if sub is None:
+            cnt[k] = cnt.get(k, 0) + n
+        else:
+            d = cnt.setdefault(k, {})
+            d[sub] = d.get(sub, 0) + n
+    hi = 26 if system == 'c-inference' else case.get('hi', 60)
+    files = [f for f in corpus.random_large(hi) if f[0] >= (12 if system == 'c-inference' else 20)]
+    a, c, i, path = files[rng.randrange(len(files))]
+    bb0, sig, conds = corpus.load(path)
+    layers = corpus.real_partition(bb0)
+    pool = corpus.derived_queries(rng, sig, conds, 5, layers)
+    q1, q2 = pool[:4], pool[2:5]
+    texts = [fml.cond_text(*q) for q in pool]
+    bdesc = {'atoms': len(sig), 'conditionals': len(conds), 'file': path.split('/')[-1]}
+
+    def viol(sig_, **detail):
+        detail.update(base=bdesc, queries=texts, multi=multi)
+        res['violations'].append({'sig': '%s:%s:strict:%s' % (sig_, cname, 'parallel' if multi else 'sequential'),
+                                  'detail': detail})
+
+    from inference.inference_manager import InferenceManager
+    from parser.Wrappers import parse_belief_base
+
+    def manager():
+        args = {}
+        if p:
+            args['pmaxsat_solver'] = p
+        return InferenceManager(parse_belief_base(path), system, **args)
+
+    def rows(df):
+        return [(bool(r), bool(t), bool(pt)) for r, t, pt in
+                zip(df['result'], df['inference_timed_out'], df['preprocessing_timed_out'])]
+    try:
+        m = manager()
+        t0 = time.perf_counter()
+        df = m.inference(impl.mk_queries(q1))
+        t_all = time.perf_counter() - t0
+        ref1 = [x[0] for x in rows(df)]
+        ref2 = [x[0] for x in rows(manager().inference(impl.mk_queries(q2)))]
+        t_pre = float(m.epistemic_state.get('preprocessing_time', 0) or 0) / 1000.0
+    except Exception as e:
+        if type(e).__name__ == 'SoftTimeout':
+            raise
+        res['inconclusive'].append('un-budgeted reference raised %s: %s' % (type(e).__name__, str(e)[:120]))
+        return res
+    t_q = max((t_all - t_pre) / max(1, len(q1)), 1e-4)
+    # a generous fractional budget must change nothing; if it raises, fractional budgets are not supported -> detach
+    try:
+        g = rows(manager().inference(impl.mk_queries(q1), total_timeout=1000.5, inference_timeout=500.25,
+                                     preprocessing_timeout=400.5))
+    except Exception as e:
+        if type(e).__name__ == 'SoftTimeout':
+            raise
+        bump('real_budget_not_attached')
+        return res
+    res['evals'] += 1
+    if [x[0] for x in g] != ref1 or any(x[1] or x[2] for x in g):
+        viol('budget:budgets-alone-change-rows', budgeted=g, unbudgeted=ref1)
+        return res
+    mon = instrument.ProcMon() if multi else None
+    if mon:
+        mon.install()
+    try:
+        plans = []
+        for fr in (1 / 16.0, 1 / 8.0, 1 / 4.0, 1 / 2.0, 1.0):
+            plans.append(({'inference_timeout': max(t_q * fr, 0.0011)}, 'inference x%.3g' % fr))
+            plans.append(({'total_timeout': max(t_pre + t_q * fr, 0.0011)}, 'total=pre+query x%.3g' % fr))
+        plans.append(({'total_timeout': max(t_pre * 0.5, 0.0011)}, 'total=pre x0.5'))
+        plans.append(({'preprocessing_timeout': max(t_pre * 0.5, 0.0011)}, 'preprocessing x0.5'))
+        plans.append(({'total_timeout': max(t_pre + t_q * 0.5, 0.0011), 'inference_timeout': max(t_q * 0.25, 0.0011)},
+                      'total+inference'))
+        for budget, tag in plans:
+            m = manager()
+            bump('fault_runs_R')
+            if multi:
+                bump('parallel_fault_runs')
+            res['evals'] += 1
+            try:
+                r1 = rows(m.inference(impl.mk_queries(q1), multi_inference=multi, **budget))
+            except Exception as e:
+                if type(e).__name__ == 'SoftTimeout':
+                    raise
+                viol('budget:exception-escapes:%s:fault-R' % type(e).__name__, at=tag, budget=budget, error=str(e)[:200])
+                continue
+            finally:
+                if mon:
+                    left = mon.leftovers(5.0)
+                    mon.cleanup()
+                    mon.reset()
+            if multi and left:
+                viol('budget:process-left-behind:fault-R', at=tag, leftovers=[list(x) for x in left])
+            flagged = False
+            for j, (r, t, pt) in enumerate(r1):
+                if t or pt:
+                    flagged = True
+                    if r:
+                        viol('budget:flagged-row-with-True:fault-R', at=tag, budget=budget, row=j, rows=r1)
+                elif r != ref1[j]:
+                    viol('budget:unflagged-wrong-answer:fault-R', at=tag, budget=budget, row=j, rows=r1, reference=ref1)
+            if flagged:
+                bump('fault_points_that_flagged_rows', cname)
+                bump('real_budget_runs_that_flagged_rows', cname)
+                res['nontrivial'].append(h(bdesc, texts, cname, 'strict', tag, multi, 'R'))
+            else:
+                bump('fault_points_without_effect', cname)
+            try:
+                r2 = rows(m.inference(impl.mk_queries(q2)))
+            except Exception as e:
+                if type(e).__name__ == 'SoftTimeout':
+                    raise
+                viol('budget:later-call-raises:%s:fault-R' % type(e).__name__, at=tag, error=str(e)[:200])
+                continue
+            for j, (r, t, pt) in enumerate(r2):
+                if t or pt:
+                    bump('later_call_rows_flagged_R')
+                    if r:
+                        viol('budget:later-call-flagged-row-with-True:fault-R', at=tag, row=j, rows=r2)
+                elif r != ref2[j]:
+                    viol('budget:later-call-unflagged-wrong-answer:fault-R', at=tag, row=j, rows=r2, reference=ref2,
+                         first_call_rows=r1)
+    finally:
+        if mon:
+            mon.cleanup()
+            mon.uninstall()
+    res['sample'] = {'base': bdesc, 'config': cname, 'mode': 'strict', 'parallel': multi, 'fault_kind': 'R',
+                     'measured_s': {'preprocessing': round(t_pre, 4), 'per_query': round(t_q, 4)},
+                     'queries': texts, 'reference': [ref1, ref2]}
     return res
